@@ -81,6 +81,7 @@ func init() {
 			"inlined), never accepts without the member's verdict, and re-attaches the discriminator to results; R-CONVSIB - the four native-to-wire converters share the " +
 			"CanConvert-guarded shape. NOT decided: value equality of round trips, idempotence, CBOR width normalisation, the treat-empty-as-default identification.",
 		Rules: []func(*Ctx){
+			func(c *Ctx) { c.ruleDiscType("R-DISCTYPE") },
 			func(c *Ctx) { c.ruleDeleg("R-DELEG") },
 			func(c *Ctx) { c.ruleBoundForm("R-BOUNDFORM") },
 			func(c *Ctx) { c.ruleWireTypes("R-DYNTYPE") },
@@ -177,6 +178,7 @@ func init() {
 			"documented exception). NOT decided: liveness under all schedules as such; deadlocks that need reasoning about the peer.",
 		Assumptions: []string{"sync.Cond has no spurious wake-ups (Go semantics)", "the peer behaves correctly (property premise)"},
 		Rules: []func(*Ctx){
+			func(c *Ctx) { c.ruleIdleCheck("R-IDLECHECK") },
 			func(c *Ctx) { c.ruleAtomic("R-ATOMIC"); c.R.Floor("R-ATOMIC", 4) },
 			func(c *Ctx) { c.ruleMustPass("R-MUSTPASS") },
 			func(c *Ctx) { c.rulePair("R-PAIR") },
@@ -193,6 +195,7 @@ func init() {
 			"NOT decided: byte-level behaviour of the CBOR decoder on truncated input; behaviour of user step code.",
 		Assumptions: []string{"channel semantics of Go (send on closed channel panics; send without receiver blocks)"},
 		Rules: []func(*Ctx){
+			func(c *Ctx) { c.ruleDecodeExit("R-DECODEEXIT", c.scopePkg("atp")); c.R.Floor("R-DECODEEXIT", 2) },
 			func(c *Ctx) { c.ruleChan("R-CHAN") },
 			func(c *Ctx) { c.ruleRecover("R-RECOVER") },
 			func(c *Ctx) { c.ruleExactlyOne("R-EXACTLYONE") },
@@ -208,6 +211,7 @@ func init() {
 			"NOT decided: which corruptions the CBOR decoder reports as errors; timing.",
 		Assumptions: []string{"every decode call may fail at any time (the property's fault model)"},
 		Rules: []func(*Ctx){
+			func(c *Ctx) { c.ruleDecodeExit("R-DECODEEXIT", c.scopePkg("atp")); c.R.Floor("R-DECODEEXIT", 2) },
 			func(c *Ctx) { c.ruleStrictDec("R-STRICTDEC"); c.R.Floor("R-STRICTDEC", 5) },
 			func(c *Ctx) { c.ruleDeliver("R-DELIVER") },
 			func(c *Ctx) { c.ruleMustPass("R-MUSTPASS") },
@@ -300,6 +304,7 @@ func init() {
 			"of rejections beyond kind, bounds and the loops' verdict classes.",
 		Assumptions: []string{wellFormed},
 		Rules: []func(*Ctx){
+			func(c *Ctx) { c.ruleEffect("R-EFFECT", c.entryData("ValidateCompatibility"), false, true) },
 			func(c *Ctx) { c.ruleOverlap("R-OVERLAP") },
 			func(c *Ctx) { c.ruleKindGate("R-KINDGATE") },
 			func(c *Ctx) { c.ruleBoundsConsulted("R-MUSTUSE") },
@@ -341,6 +346,7 @@ func init() {
 			"error by a newly built one, is a violation (3 genuine re-wraps on the one-of Validate path are known findings). NOT decided: that the segment text equals the " +
 			"user's key spelling; the order of segments (the prepend in AddPathSegment is value-level).",
 		Rules: []func(*Ctx){
+			func(c *Ctx) { c.ruleValueString("R-VALSTRING", c.scopePkg("schema")) },
 			func(c *Ctx) { c.ruleErrOrigin("R-ERRORIGIN") },
 			func(c *Ctx) { c.rulePathSeg("R-PATHSEG") },
 		},
@@ -370,6 +376,7 @@ func init() {
 		Assumptions: []string{"a schema file argument is given (the property's premise)"},
 		Rules: []func(*Ctx){
 			func(c *Ctx) { c.ruleArgsIndex("R-INDEX") },
+			func(c *Ctx) { c.ruleTrunc("R-TRUNC"); c.R.Floor("R-TRUNC", 1) },
 			func(c *Ctx) {
 				all := map[*ssa.Function]bool{}
 				for _, f := range c.Gen.Funcs {
